@@ -3,16 +3,282 @@ package main
 
 import (
 	"bufio"
+	"crypto/md5"
 	"fmt"
 	"io/ioutil"
 	"os"
+	"runtime"
+	"sort"
 	"strconv"
 	"strings"
+	"sync/atomic"
 	"testing"
 
 	"git.arvados.org/arvados.git/sdk/go/arvados"
+	"github.com/prometheus/client_golang/prometheus"
 	"github.com/sirupsen/logrus"
 )
+
+// verifC12Point is called by the add-only instrumented copy of balance.go that the C12 plugin
+// generates from the current working tree (translator/instrument, points inside balanceBlock). It
+// is a no-op unless a `balpair` case installs a hook that parks one balanceBlock call at its k-th
+// point while another block is balanced on the same Balancer.
+var verifC12Hook atomic.Value // func(string)
+
+func verifC12Point(id string) {
+	if h, ok := verifC12Hook.Load().(func(string)); ok && h != nil {
+		h(id)
+	}
+}
+
+const verifC12Digits = "0123456789abcdefghijklmnopqrstuvwxyz"
+
+func verifC12Balancer(uuids []string, rep int) (*Balancer, []*KeepService) {
+	logger := logrus.New()
+	logger.Out = ioutil.Discard
+	bal := &Balancer{Logger: logger, KeepServices: map[string]*KeepService{}}
+	var srvs []*KeepService
+	for i, u := range uuids {
+		srv := &KeepService{KeepService: arvados.KeepService{UUID: u}}
+		srv.mounts = []*KeepMount{{
+			KeepMount:   arvados.KeepMount{UUID: fmt.Sprintf("zzzzz-mount-%015x", i), Replication: rep},
+			KeepService: srv,
+		}}
+		srv.ChangeSet = &ChangeSet{}
+		srvs = append(srvs, srv)
+		bal.KeepServices[u] = srv
+	}
+	bal.MinMtime = 1000000
+	bal.cleanupMounts()
+	return bal, srvs
+}
+
+// verifC12Wanted: the servers on which the balancer wants a replica of blkid (pull targets, plus
+// the holder of the only existing replica when it is one of the d wanted places).
+func verifC12Wanted(srvs []*KeepService, blkid arvados.SizedDigest, holder, d int) ([]int, string) {
+	var wanted []int
+	for i, srv := range srvs {
+		for _, tr := range srv.Trashes {
+			if tr.SizedDigest == blkid {
+				return nil, "unexpected-trash"
+			}
+		}
+		for _, pl := range srv.Pulls {
+			if pl.SizedDigest == blkid {
+				wanted = append(wanted, i)
+				break
+			}
+		}
+	}
+	if len(wanted) == d-1 {
+		wanted = append(wanted, holder)
+	}
+	if len(wanted) != d {
+		return nil, fmt.Sprintf("unexpected-wanted d=%d %v", d, wanted)
+	}
+	sort.Ints(wanted)
+	return wanted, ""
+}
+
+// verifC12PairRun balances two blocks on ONE Balancer: the call for `first` is parked at its k-th
+// instrumented point (k = 0: never), the call for `second` then runs from start to end, and the
+// first call is resumed. Returns the wanted servers of both blocks and the point where the first
+// call was parked ("" if it ended before its k-th point).
+func verifC12PairRun(first, second string, uuids []string, rep, d, k int) (wf, ws []int, parkedAt, errs string) {
+	bal, srvs := verifC12Balancer(uuids, rep)
+	bal.setupLookupTables()
+	mk := func(h string) (arvados.SizedDigest, *BlockState) {
+		return arvados.SizedDigest(h + "+3"), &BlockState{
+			Replicas: []Replica{{KeepMount: srvs[0].mounts[0], Mtime: 1}},
+			Desired:  map[string]int{"default": d * rep},
+		}
+	}
+	idF, blkF := mk(first)
+	idS, blkS := mk(second)
+	var n int32
+	parked := make(chan string, 1)
+	release := make(chan struct{})
+	done := make(chan string, 1)
+	verifC12Hook.Store(func(id string) {
+		if k > 0 && atomic.AddInt32(&n, 1) == int32(k) {
+			parked <- id
+			<-release
+		}
+	})
+	defer verifC12Hook.Store(func(string) {})
+	go func() {
+		defer func() {
+			if r := recover(); r != nil {
+				done <- fmt.Sprintf("panic %v", r)
+			} else {
+				done <- ""
+			}
+		}()
+		bal.balanceBlock(idF, blkF)
+	}()
+	select {
+	case parkedAt = <-parked:
+		bal.balanceBlock(idS, blkS)
+		close(release)
+		errs = <-done
+	case errs = <-done:
+		// the first call ended before its k-th point: nothing left to interleave with
+		verifC12Hook.Store(func(string) {})
+		bal.balanceBlock(idS, blkS)
+	}
+	if errs != "" {
+		return
+	}
+	if wf, errs = verifC12Wanted(srvs, idF, 0, d); errs != "" {
+		return
+	}
+	ws, errs = verifC12Wanted(srvs, idS, 0, d)
+	return
+}
+
+// verifC12Pair: the server ranking of two blocks (recovered as in verifC12Rank, desired
+// replication 1..N) when their balanceBlock calls overlap on one Balancer, for every point at
+// which one call can be suspended while the other one runs, in both roles. Output
+// "orderA / orderB" when every schedule gives the same two rankings, otherwise
+// "schedule-dependent ..." naming the first schedule that does not.
+func verifC12Pair(hashA, hashB string, uuids []string, rep int) (out string) {
+	defer func() {
+		if r := recover(); r != nil {
+			out = fmt.Sprintf("panic %v", r)
+		}
+	}()
+	type res struct{ a, b string }
+	rankings := func(swap bool, k int) (r res, parkedAny bool, point string) {
+		first, second := hashA, hashB
+		if swap {
+			first, second = hashB, hashA
+		}
+		var ordF, ordS []string
+		seenF, seenS := map[int]bool{}, map[int]bool{}
+		badF, badS := "", ""
+		for d := 1; d <= len(uuids); d++ {
+			wf, ws, at, errs := verifC12PairRun(first, second, uuids, rep, d, k)
+			if errs != "" {
+				return res{errs, errs}, parkedAny, at
+			}
+			if at != "" {
+				parkedAny = true
+				if point == "" {
+					point = at
+				}
+			}
+			fresh := func(w []int, seen map[int]bool, order *[]string, bad *string) {
+				var f []int
+				for _, i := range w {
+					if !seen[i] {
+						f = append(f, i)
+						seen[i] = true
+					}
+				}
+				if len(f) != 1 && *bad == "" {
+					*bad = fmt.Sprintf("not-nested d=%d %v", d, f)
+				}
+				if len(f) == 1 {
+					*order = append(*order, uuids[f[0]])
+				}
+			}
+			fresh(wf, seenF, &ordF, &badF)
+			fresh(ws, seenS, &ordS, &badS)
+		}
+		rf, rs := strings.Join(ordF, ","), strings.Join(ordS, ",")
+		if badF != "" {
+			rf = badF
+		}
+		if badS != "" {
+			rs = badS
+		}
+		if swap {
+			return res{rs, rf}, parkedAny, point
+		}
+		return res{rf, rs}, parkedAny, point
+	}
+	base, _, _ := rankings(false, 0)
+	if strings.HasPrefix(base.a, "panic") || strings.HasPrefix(base.a, "unexpected") {
+		return base.a
+	}
+	schedules := 0
+	for _, swap := range []bool{false, true} {
+		for k := 1; k <= 400; k++ {
+			r, parkedAny, point := rankings(swap, k)
+			if !parkedAny {
+				break
+			}
+			schedules++
+			if r != base {
+				who := "first"
+				if swap {
+					who = "second"
+				}
+				return fmt.Sprintf("schedule-dependent (%s block suspended at its point %d = %s while the other block is balanced): %s / %s ; undisturbed: %s / %s", who, k, point, r.a, r.b, base.a, base.b)
+			}
+		}
+	}
+	if schedules == 0 {
+		return "unexpected-no-points"
+	}
+	return base.a + " / " + base.b
+}
+
+// verifC12Sweep: n blocks balanced by ONE ComputeChangeSets call (the real worker pool, with at
+// least 8 workers). Block i has the hash md5(seed:i), one replica on server i mod N and desired
+// replication d. Output: per block the d servers the balancer wants it on, as indices into uuids.
+func verifC12Sweep(seed string, uuids []string, n, d int) (out string) {
+	defer func() {
+		if r := recover(); r != nil {
+			out = fmt.Sprintf("panic %v", r)
+		}
+	}()
+	if len(uuids) > len(verifC12Digits) || d < 1 || d > len(uuids) {
+		return "bad-op"
+	}
+	procs := runtime.NumCPU()
+	if procs < 8 {
+		procs = 8
+	}
+	defer runtime.GOMAXPROCS(runtime.GOMAXPROCS(procs))
+	bal, srvs := verifC12Balancer(uuids, 1)
+	bal.Metrics = newMetrics(prometheus.NewRegistry())
+	bal.BlockStateMap = NewBlockStateMap()
+	ids := make([]arvados.SizedDigest, n)
+	for i := 0; i < n; i++ {
+		ids[i] = arvados.SizedDigest(fmt.Sprintf("%x+3", md5.Sum([]byte(fmt.Sprintf("%s:%d", seed, i)))))
+		bal.BlockStateMap.AddReplicas(srvs[i%len(srvs)].mounts[0], []arvados.KeepServiceIndexEntry{{SizedDigest: ids[i], Mtime: 1}})
+		bal.BlockStateMap.IncreaseDesired("", nil, d, []arvados.SizedDigest{ids[i]})
+	}
+	bal.ComputeChangeSets()
+	pulled := make(map[arvados.SizedDigest][]int, n)
+	for i, srv := range srvs {
+		if len(srv.Trashes) > 0 {
+			return "unexpected-trash"
+		}
+		for _, pl := range srv.Pulls {
+			pulled[pl.SizedDigest] = append(pulled[pl.SizedDigest], i)
+		}
+	}
+	var sb strings.Builder
+	for i, id := range ids {
+		w := pulled[id]
+		if len(w) == d-1 {
+			w = append(w, i%len(srvs))
+		}
+		if len(w) != d {
+			return fmt.Sprintf("unexpected-wanted block=%d d=%d %v", i, d, w)
+		}
+		sort.Ints(w)
+		if i > 0 {
+			sb.WriteByte(',')
+		}
+		for _, x := range w {
+			sb.WriteByte(verifC12Digits[x])
+		}
+	}
+	return sb.String()
+}
 
 // verifC12Rank recovers the order in which balanceBlock ranks the servers for a block, by asking
 // for desired replication 1..N with a single old replica on the first server: the set of wanted
@@ -100,6 +366,35 @@ func TestVerifC12(t *testing.T) {
 	sc.Buffer(make([]byte, 1<<20), 1<<26)
 	for sc.Scan() {
 		f := strings.Split(sc.Text(), " ")
+		if f[0] == "balpair" && (len(f) == 4 || len(f) == 5) && f[3] != "-" {
+			// balpair <hashA> <hashB> <uuid,...> [rep]
+			rep := 1
+			if len(f) == 5 {
+				rep, _ = strconv.Atoi(f[4])
+			}
+			if rep < 1 || f[1] == f[2] {
+				fmt.Fprintln(w, "bad-op")
+				continue
+			}
+			fmt.Fprintln(w, verifC12Pair(f[1], f[2], strings.Split(f[3], ","), rep))
+			continue
+		}
+		if f[0] == "balsweep" && len(f) == 4 && f[2] != "-" {
+			// balsweep <seed32> <uuid,...> <n>:<d>
+			nd := strings.Split(f[3], ":")
+			if len(nd) != 2 {
+				fmt.Fprintln(w, "bad-op")
+				continue
+			}
+			n, _ := strconv.Atoi(nd[0])
+			d, _ := strconv.Atoi(nd[1])
+			if n < 1 {
+				fmt.Fprintln(w, "bad-op")
+				continue
+			}
+			fmt.Fprintln(w, verifC12Sweep(f[1], strings.Split(f[2], ","), n, d))
+			continue
+		}
 		if (len(f) != 3 && len(f) != 4) || f[0] != "bal" || f[2] == "-" {
 			fmt.Fprintln(w, "bad-op")
 			continue
